@@ -65,6 +65,20 @@ CLAIMED = {
              "data) — the model shows it (ex_round_stuck); the property's 'usable MTU range' excludes it.",
         technique="Rocq proof (invariant over arbitrary size schedules, arithmetic of the CBOR length thresholds) + differential correspondence",
         design="4 (C15)"),
+    "C04": dict(
+        text="Machine-checked theorems over the executable model of Voucher.VerifyEntries/validateNextEntry/OwnerPublicKey (on the CBOR and "
+             "COSE models, voucher layout reflected from fdo.Voucher): acceptance of a chain of any length is characterised link by link "
+             "(signer = predecessor's key, algorithm, header-info hash, previous hash over the predecessor's full encoding), any "
+             "replacement of a non-final entry or of header/HMAC that still passes needs equal hashes of different encodings, the owner "
+             "is the last entry's key, nothing panics. Tied to the code by differential runs on vouchers created by the real DI service "
+             "and extended 0..4 times (6 key types x 3 encodings), with every-byte bit flips, entry swaps/duplications/drops/splices, "
+             "foreign header/HMAC/cert chain, wrong secret/key hash, CBOR mutations; implementation monitors: honest accepted with the "
+             "right owner, any bound change rejected, ExtendVoucher refuses every non-owner signer and next keys of another type/size.",
+        note=COMMON_NOTE + "ExtendVoucher and VerifyDeviceCertChain (x509 path validation) are checked on the implementation only. "
+             "Collision resistance / unforgeability of the primitives is not claimed: theorems reduce acceptance of an alteration to "
+             "an oracle answer.",
+        technique="Rocq proof (induction over the entry chain, reduction to oracle collisions) + differential correspondence",
+        design="4 (C04)"),
     "C20": dict(
         text="Machine-checked theorems over the executable model of protocol.parseDirective/parseURLs/cbor.ArrayShift built on the CBOR "
              "decoder model: totality for every instruction list and role, other-role directives yield the zero directive, invariance under "
